@@ -85,7 +85,7 @@ class IsoDepInitiator(object):
             self.clf.exchange(data, timeout)
             return
 
-        for offset in range(0, len(command), self.miu):
+        for offset in range(0, max(len(command), 1), self.miu):
             more = len(command) - offset > self.miu
             pfb = pack('B', (0x02, 0x12)[more] | self.pni)
             data = pfb + command[offset:offset+self.miu]
